@@ -55,7 +55,7 @@ Proof. reflexivity. Qed.
 
 (* ---- C17: floats, strings, bytes, bools ----------------------------------------------- *)
 Lemma decode_f32_exact : forall b,
-  decode_to TyF32 (VFloat b) = if overflow_f32 b then Err else Ok (GFloat (narrow_go b)).
+  decode_to TyF32 (VFloat b) = if overflow_f32 b then Err else Ok (GFloat (narrow b)).
 Proof. intros. cbv [decode_to dec_fuel decto dec_body at_break is_null body_of dec_value zero ty_size val_size Nat.add Nat.mul setv].
   destruct (overflow_f32 b); reflexivity. Qed.
 Lemma decode_f64_exact : forall b, decode_to TyF64 (VFloat b) = Ok (GFloat b).
@@ -64,7 +64,7 @@ Lemma decode_string_exact : forall x, decode_to TyString (VString x) = Ok (GStri
 Proof. reflexivity. Qed.
 Lemma decode_symbol_text : forall x, decode_to TyString (VSymbol (SymText x)) = Ok (GString x).
 Proof. reflexivity. Qed.
-Lemma decode_symbol_no_text_panics : forall n, decode_to TyString (VSymbol (SymSid n)) = Panic.
+Lemma decode_symbol_no_text_is_error : forall n, decode_to TyString (VSymbol (SymSid n)) = Err.
 Proof. reflexivity. Qed.
 Lemma decode_bytes_exact : forall b,
   decode_to (TySlice (TyInt U8)) (VBlob b) = Ok (GBytes (Some b)) /\
@@ -97,12 +97,6 @@ Definition scalar_outcome_ok (t : gty) (v : value) : Prop :=
 Definition C17_scalar_faithful_stmt : Prop :=
   forall t v, scalar_ty t = true -> scalar_val v = true -> scalar_outcome_ok t v.
 
-Lemma scalar_faithful_refuted : ~ C17_scalar_faithful_stmt.
-Proof.
-  intro H. specialize (H TyString (VSymbol (SymSid 0)) eq_refl eq_refl).
-  unfold scalar_outcome_ok in H. rewrite decode_symbol_no_text_panics in H. exact H.
-Qed.
-
 Lemma list_eqb_refl : forall l, list_eqb l l = true.
 Proof. induction l; cbn; [reflexivity|]. rewrite N.eqb_refl. exact IHl. Qed.
 
@@ -116,12 +110,9 @@ Ltac fin :=
   first [ exact I
         | right; cbn; rewrite ?Z.eqb_refl, ?N.eqb_refl, ?list_eqb_refl, ?Bool.eqb_reflx; reflexivity ].
 
-Lemma scalar_faithful_except_known : forall t v,
-  scalar_ty t = true -> scalar_val v = true ->
-  (forall n, v <> VSymbol (SymSid n)) ->
-  scalar_outcome_ok t v.
+Lemma scalar_faithful : C17_scalar_faithful_stmt.
 Proof.
-  intros t v Ht Hv Hsym. unfold scalar_outcome_ok.
+  intros t v Ht Hv. unfold scalar_outcome_ok.
   destruct v as [c|b|z|bits|d|body|y|x|cb|bb|l|l|l|a v']; try discriminate Hv.
   - rewrite decode_scalar_null by exact Ht. left. split; reflexivity.
   - destruct t; try discriminate Ht; slice_case Ht; fin.
@@ -130,11 +121,10 @@ Proof.
     right. cbn. rewrite Z.eqb_refl, E. reflexivity.
   - destruct t; try discriminate Ht; slice_case Ht; try fin.
     rewrite decode_f32_exact. destruct (overflow_f32 bits) eqn:E; [exact I|].
-    right. cbn. rewrite finite_f32_ok_spec, E. cbn. unfold narrow_go. apply N.eqb_refl.
+    right. cbn. rewrite finite_f32_ok_spec, E. cbn. apply N.eqb_refl.
   - destruct t; try discriminate Ht; slice_case Ht; fin.
   - destruct t; try discriminate Ht; slice_case Ht; fin.
-  - destruct y as [x|n]; [|exfalso; exact (Hsym n eq_refl)].
-    destruct t; try discriminate Ht; slice_case Ht; fin.
+  - destruct y as [x|n]; destruct t; try discriminate Ht; slice_case Ht; fin.
   - destruct t; try discriminate Ht; slice_case Ht; fin.
   - destruct t; try discriminate Ht; slice_case Ht; fin.
   - destruct t; try discriminate Ht; slice_case Ht; fin.
@@ -163,8 +153,8 @@ Proof.
     destruct t; try discriminate Ht; try discriminate Hc; slice_case Ht; try discriminate Hc; reflexivity.
 Qed.
 
-(* ---- C17: proved panics of the faithful model -------------------------------------------------- *)
-Lemma symtok_target_panics : forall y, decode_to TySymTok (VSymbol y) = Panic.
+(* ---- C17: SymbolToken target, annotation wrappers ------------------------------------------------ *)
+Lemma symtok_target_exact : forall y, decode_to TySymTok (VSymbol y) = Ok (GSymTok (tok_of_symv y)).
 Proof. reflexivity. Qed.
 
 (* the struct that the documentation of Unmarshal prescribes: struct { Value int; AnyName []string `ion:",annotations"` } *)
@@ -174,8 +164,12 @@ Definition doc_ann_struct : gty :=
 Definition tok_ann_struct : gty :=
   TyStruct (FCons (s "Value") true false [] (TyInt IInt)
            (FCons (s "AnyName") true false (s ",annotations") (TySlice TySymTok) FNil)).
-Lemma doc_annotations_panics :
-  decode_to doc_ann_struct (VAnn [SymText (s "age")] (VInt 10)) = Panic.
+Lemma doc_annotations_ok :
+  decode_to doc_ann_struct (VAnn [SymText (s "age")] (VInt 10)) =
+  Ok (GStruct [GInt 10; GSlice (Some [GString (s "age")])]).
+Proof. vm_compute. reflexivity. Qed.
+Lemma doc_annotations_no_text_is_error :
+  decode_to doc_ann_struct (VAnn [SymSid 0] (VInt 10)) = Err.
 Proof. vm_compute. reflexivity. Qed.
 Lemma tok_annotations_ok :
   decode_to tok_ann_struct (VAnn [SymText (s "age")] (VInt 10)) =
@@ -294,31 +288,25 @@ Lemma encode_map_uses_sorted_keys : forall f e m h,
   enc_map (encode_f f true) false e (sort_keys m) h.
 Proof. intros. reflexivity. Qed.
 
-(* ---- C16: refutations of the full-universe statement -------------------------------------------------- *)
-Definition C16_roundtrip_all_stmt : Prop :=
-  forall t g, wf_ty t = true -> has_type g t = true -> roundtrip t g = Ok g.
-
+(* ---- C16: formerly refuted shapes ------------------------------------------------------------------- *)
 Lemma roundtrip_empty_slice :
-  roundtrip (TySlice (TyInt IInt)) (GSlice (Some [])) = Ok (GSlice None).
+  roundtrip (TySlice (TyInt IInt)) (GSlice (Some [])) = Ok (GSlice (Some [])).
 Proof. vm_compute. reflexivity. Qed.
-Lemma roundtrip_bigint : roundtrip TyBigInt (GBigInt 5) = Ok (GBigInt 0).
-Proof. vm_compute. reflexivity. Qed.
-
-Lemma roundtrip_all_refuted_empty_slice : ~ C16_roundtrip_all_stmt.
-Proof.
-  intro H. specialize (H (TySlice (TyInt IInt)) (GSlice (Some [])) eq_refl eq_refl).
-  rewrite roundtrip_empty_slice in H. discriminate H.
-Qed.
-Lemma roundtrip_all_refuted_bigint : ~ C16_roundtrip_all_stmt.
-Proof.
-  intro H. specialize (H TyBigInt (GBigInt 5) eq_refl eq_refl).
-  rewrite roundtrip_bigint in H. discriminate H.
-Qed.
-
-Lemma decimal_value_panics : forall d, encode true TyDecimal (GDecimal d) TNoType = Panic.
+Lemma roundtrip_bigint : forall z, roundtrip TyBigInt (GBigInt z) = Ok (GBigInt z).
+Proof. reflexivity. Qed.
+Lemma roundtrip_decimal_value : forall d, roundtrip TyDecimal (GDecimal d) = Ok (GDecimal d).
 Proof. reflexivity. Qed.
 Definition ann_only_struct : gty :=
   TyStruct (FCons (s "A") true false (s ",annotations") (TySlice TySymTok) FNil).
-Lemma annotation_only_struct_diverges :
-  encode true ann_only_struct (GStruct [GSlice None]) TNoType = Panic.
+Lemma annotation_only_struct_is_error :
+  encode true ann_only_struct (GStruct [GSlice None]) TNoType = Err.
 Proof. vm_compute. reflexivity. Qed.
+
+(* the full-universe statement is still false: a pointer to a nil slice collapses (null is null) *)
+Definition C16_roundtrip_all_stmt : Prop :=
+  forall t g, wf_ty t = true -> has_type g t = true -> roundtrip t g = Ok g.
+Lemma roundtrip_all_refuted_nested_nil : ~ C16_roundtrip_all_stmt.
+Proof.
+  intro H. specialize (H (TyPtr (TySlice (TyInt IInt))) (GPtr (Some (GSlice None))) eq_refl eq_refl).
+  vm_compute in H. discriminate H.
+Qed.
